@@ -1483,6 +1483,7 @@ namespace link_layer {
     {
         this->reset_encryption();
         this->reset_phy( *this );
+        this->client_disconnected( connection_data_ );
 
         if ( state_ != state::connecting && connection_established_reported_ )
         {
